@@ -500,6 +500,13 @@ func corpus() []Input {
 		{Svc: "dummy", Proto: "udp", N: 3, Kind: "corpus", Conn: Conn{Segs: str("abc\ndef")}},
 		{Svc: "memcached", Proto: "udp", N: 2, Kind: "corpus", Conn: Conn{Segs: str("\x00\x01\x00\x00\x00\x01\x00\x00stats\r\n")}},
 		{Svc: "memcached", Proto: "udp", N: 2, Kind: "corpus", Conn: Conn{}},
+		{Svc: "ntp", Proto: "udp", N: 2, Kind: "corpus", Conn: Conn{}},
+		{Svc: "echo", Proto: "udp", N: 2, Kind: "corpus", Conn: Conn{}},
+		{Svc: "dummy", Proto: "udp", N: 2, Kind: "corpus", Conn: Conn{}},
+		{Svc: "adb", Proto: "udp", N: 2, Kind: "corpus", Conn: Conn{}},
+		{Svc: "tftp", Proto: "udp", N: 2, Kind: "corpus", Conn: Conn{}},
+		{Svc: "smtp", Proto: "udp", N: 2, Kind: "corpus", Conn: Conn{}},
+		{Svc: "ftp", Proto: "udp", N: 1, Kind: "corpus", Conn: Conn{}},
 		{Svc: "memcached", Proto: "udp", N: 1, Kind: "corpus", Conn: Conn{Segs: str("\x00\x01\x00\x00\x00\x01\x00\x00set k 0 0 100000\r\nabc\r\n")}},
 		{Svc: "tftp", Proto: "udp", N: 2, Kind: "corpus", Conn: Conn{Segs: str("\x00\x01file")}},
 		{Svc: "adb", Proto: "tcp", N: 2, Kind: "corpus", Conn: Conn{End: "silent", Segs: str(cnxn)}},
@@ -519,18 +526,32 @@ var outCode = map[string]int{"returned": 0, "panic": 1, "spin": 2, "blocked": 3}
 var udpTerm = "TZero"
 
 func probeUDPTerm() string {
-	dc := &listener.DummyUDPConn{Buffer: []byte{1}}
-	buf := make([]byte, 4)
-	dc.Read(buf)
-	n, err := dc.Read(buf)
-	switch {
-	case n == 0 && err == nil:
-		return "TZero"
-	case n == 0 && err == io.EOF:
-		return "TEof"
+	rbuf := make([]byte, 65536)
+	rbuf[0] = 1
+	out := "TEof"
+	// a one-byte datagram and a zero-length one (buf[:0]: empty, not nil - what the socket
+	// listener hands over), each read twice past its end
+	for _, n0 := range []int{1, 0} {
+		dc := &listener.DummyUDPConn{Buffer: rbuf[:n0]}
+		buf := make([]byte, 4)
+		if n0 > 0 {
+			dc.Read(buf)
+		}
+		for k := 0; k < 2; k++ {
+			n, err := dc.Read(buf)
+			switch {
+			case n == 0 && err == io.EOF:
+			case n == 0 && err == nil:
+				out = "TZero"
+				if n0 == 0 {
+					out = "TZero-on-empty-datagram"
+				}
+			default:
+				hx.Fatal("listener.DummyUDPConn.Read after the datagram: (%d, %v) - neither (0, nil) nor (0, EOF)", n, err)
+			}
+		}
 	}
-	hx.Fatal("listener.DummyUDPConn.Read after the datagram: (%d, %v) - neither (0, nil) nor (0, EOF)", n, err)
-	return ""
+	return out
 }
 
 func coqCase(id int, in Input, ob Obs) string {
@@ -627,6 +648,9 @@ func main() {
 			if sv == "ssh-simulator" {
 				nsc = 3
 			}
+			if sv == "vnc" {
+				nsc = 8
+			}
 			for sc := 0; sc < nsc; sc++ {
 				for _, silent := range []bool{false, true} {
 					for _, n := range ns {
@@ -719,6 +743,15 @@ func main() {
 		dist["svc:"+in.Svc]++
 		dist["proto:"+in.Proto]++
 		dist["kind:"+in.Kind]++
+		if in.Proto == "udp" {
+			tot := 0
+			for _, sg := range in.Conn.Segs {
+				tot += len(sg)
+			}
+			if tot == 0 {
+				dist["zero-length-datagram"]++
+			}
+		}
 		if in.Proto == "tcp" {
 			dist["end:"+in.Conn.End]++
 		}
